@@ -316,7 +316,7 @@ class Ledger:
                         it = led.frame_item(p)
                         if it is not None and node is not None:
                             led.offers.setdefault((id(it), node.id), led.env.now)
-                        led.canput.append((led.env.now, led.nid(node), e.id, bool(ans), led.room(e)))
+                        led.canput.append((led.env.now, led.nid(node), e.id, bool(ans), led.room(e), tuple(led.live_tokens(e, "p", "granted"))))
                     led.events.append((led.env.now, q, e.id, led.nid(node), None, bool(ans)))
                     return ans
                 return f
